@@ -2,9 +2,19 @@
 // The workload AND every expected value come from vf/oracles/c10.py (hashlib, zlib.crc32, the FNV-1a
 // recurrence); this harness only runs the real phosg code on each input and compares with the stored
 // values.  Inputs live in exact-size heap blocks (at a varying alignment) so that ASan watches every read.
+//
+// Modes:  (default)  single-threaded: values, both overloads, chaining at every split point, chains that
+//                    contain EMPTY pieces in three forms ((nullptr,0), (valid pointer,0), empty std::string)
+//                    at the start / in the middle / at the end, with default and non-default running values.
+//         mode=mt    8 threads (barrier start) each hashing its own inputs over and over while the others
+//                    do the same; every result is compared with the single-threaded expected value from the
+//                    oracle.  Built as asan (values) and as tsan (races that happen not to corrupt a value).
+// vf::poison_errno() is called directly before every call into phosg (correct code never reads a stale errno).
 #include <ctype.h>
 
+#include <atomic>
 #include <string>
+#include <thread>
 #include <vector>
 
 #include "Hash.hh"
@@ -15,6 +25,12 @@ using vf::fmt;
 
 static vf::Ctx* C;
 
+// every call into phosg goes through one of these two
+#define PH(expr) (vf::poison_errno(), (expr))
+#define PH_CTOR(decl) \
+  vf::poison_errno(); \
+  decl
+
 struct Case {
   uint32_t id;
   uint8_t kind, fill, allsplits, nsplits;
@@ -23,6 +39,11 @@ struct Case {
   const uint8_t *md5, *sha1, *sha256;
   uint32_t crc, fnv32;
   uint64_t fnv64;
+  uint8_t seeded_flags;  // bit0: crc_s valid, bit1: fnv*_s valid
+  uint32_t seed32;
+  uint64_t seed64;
+  uint32_t crc_s, fnv32_s;
+  uint64_t fnv64_s;
   vector<uint32_t> splits;
 };
 
@@ -39,9 +60,9 @@ static string lenclass(size_t n) {
 }
 
 static string describe(const Case& k) {
-  string d = fmt("case=%u kind=%s fill=%s len=%u", k.id, k.kind == 1 ? "random" : "enumerated-length", FILLS[k.fill & 3], k.len);
+  string d = fmt("case=%u kind=%s fill=%s len=%u", k.id, k.kind == 1 ? "random" : k.kind == 3 ? "concurrency-set" : "enumerated-length", FILLS[k.fill & 3], k.len);
   if (k.len <= 80) d += " data=" + vf::hex(k.data, k.len);
-  else d += " data[0..32)=" + vf::hex(k.data, 32) + "... (regenerate: vf/oracles/c10.py plan(tier,seed)[case])";
+  else d += " data[0..32)=" + vf::hex(k.data, 32) + "... (regenerate: vf/oracles/c10.py)";
   return d;
 }
 
@@ -51,9 +72,9 @@ static void check_digest(const char* name, const Case& k, const uint8_t* p, cons
   string want_hex = vf::hex(expect, dlen);
   string lc = lenclass(k.len);
   C->crumb_n(name, k.id, k.len, k.fill, 0);
-  H h1(p, k.len);
+  PH_CTOR(H h1(p, k.len));
   C->evaluations++;
-  string b = h1.bin(), x = h1.hex();
+  string b = PH(h1.bin()), x = PH(h1.hex());
   if (b != want_bin)
     C->violation(fmt("%s:bin:%s", name, lc.c_str()), fmt("%s(ptr,size).bin() differs from hashlib", name),
         describe(k) + " got=" + vf::hex(b) + " expected=" + want_hex);
@@ -61,9 +82,9 @@ static void check_digest(const char* name, const Case& k, const uint8_t* p, cons
     C->violation(fmt("%s:hex:%s", name, lc.c_str()), fmt("%s(ptr,size).hex() differs from hashlib hexdigest (case-insensitive)", name),
         describe(k) + " got=" + x + " expected=" + want_hex);
   C->crumb_n(name, k.id, k.len, k.fill, 1);
-  H h2(s);
+  PH_CTOR(H h2(s));
   C->evaluations++;
-  string b2 = h2.bin(), x2 = h2.hex();
+  string b2 = PH(h2.bin()), x2 = PH(h2.hex());
   if (b2 != want_bin)
     C->violation(fmt("%s:bin:string-overload:%s", name, lc.c_str()), fmt("%s(std::string).bin() differs from hashlib", name),
         describe(k) + " got=" + vf::hex(b2) + " expected=" + want_hex);
@@ -78,15 +99,15 @@ static void check_split(const Case& k, const uint8_t* p, size_t cut, const char*
   string where = cut == 0 ? "empty-prefix" : cut == n ? "empty-suffix" : "inner";
   C->crumb_n("split", k.id, n, cut);
   C->evaluations += 3;
-  uint32_t c = phosg::crc32(q, n - cut, phosg::crc32(p, cut));
+  uint32_t c = PH(phosg::crc32(q, n - cut, PH(phosg::crc32(p, cut))));
   if (c != k.crc)
     C->violation(fmt("crc32:chain:%s", where.c_str()), "crc32(b, crc32(a)) differs from zlib.crc32(a+b)",
         describe(k) + fmt(" cut=%zu got=%08x expected=%08x", cut, c, k.crc));
-  uint32_t f32 = phosg::fnv1a32(q, n - cut, phosg::fnv1a32(p, cut));
+  uint32_t f32 = PH(phosg::fnv1a32(q, n - cut, PH(phosg::fnv1a32(p, cut))));
   if (f32 != k.fnv32)
     C->violation(fmt("fnv1a32:chain:%s", where.c_str()), "fnv1a32(b, fnv1a32(a)) differs from the FNV-1a recurrence over a+b",
         describe(k) + fmt(" cut=%zu got=%08x expected=%08x", cut, f32, k.fnv32));
-  uint64_t f64 = phosg::fnv1a64(q, n - cut, phosg::fnv1a64(p, cut));
+  uint64_t f64 = PH(phosg::fnv1a64(q, n - cut, PH(phosg::fnv1a64(p, cut))));
   if (f64 != k.fnv64)
     C->violation(fmt("fnv1a64:chain:%s", where.c_str()), "fnv1a64(b, fnv1a64(a)) differs from the FNV-1a recurrence over a+b",
         describe(k) + fmt(" cut=%zu got=%016" PRIx64 " expected=%016" PRIx64, cut, f64, k.fnv64));
@@ -94,8 +115,8 @@ static void check_split(const Case& k, const uint8_t* p, size_t cut, const char*
     // std::string overloads of the seeded FNV forms
     string a((const char*)p, cut), b((const char*)q, n - cut);
     C->evaluations += 2;
-    uint32_t g32 = phosg::fnv1a32(b, phosg::fnv1a32(a));
-    uint64_t g64 = phosg::fnv1a64(b, phosg::fnv1a64(a));
+    uint32_t g32 = PH(phosg::fnv1a32(b, PH(phosg::fnv1a32(a))));
+    uint64_t g64 = PH(phosg::fnv1a64(b, PH(phosg::fnv1a64(a))));
     if (g32 != k.fnv32)
       C->violation(fmt("fnv1a32:chain:string-overload:%s", where.c_str()), "fnv1a32(string b, fnv1a32(string a)) differs from the recurrence over a+b",
           describe(k) + fmt(" cut=%zu got=%08x expected=%08x", cut, g32, k.fnv32));
@@ -104,6 +125,120 @@ static void check_split(const Case& k, const uint8_t* p, size_t cut, const char*
           describe(k) + fmt(" cut=%zu got=%016" PRIx64 " expected=%016" PRIx64, cut, g64, k.fnv64));
   }
   C->cls(fmt("chain:%s:%s:%s", how, where.c_str(), n <= 300 ? "len<=300" : n < 65536 ? "len<64K" : "len>=64K"));
+}
+
+// ---- chains with an EMPTY piece ---------------------------------------------------------------------
+// pieces: prefix = [p, p+cut), suffix = [p+cut, p+n), and one empty piece E inserted at the start, between the
+// two, or at the end.  E is given as (nullptr, 0), as (pointer just past a 1-byte heap block, 0) or as an empty
+// std::string (FNV only - crc32 has no string overload).  The chain starts from the default running value or
+// from the case's non-default one; the result must be the oracle's value for the concatenation = the whole input.
+enum EmptyForm { E_NULL = 0, E_VALID = 1, E_STRING = 2 };
+static const char* EFORM[] = {"nullptr", "valid-pointer", "empty-string"};
+static const char* EPOS[] = {"start", "middle", "end"};
+static uint8_t* g_one_byte_block;  // heap block of 1 byte; +1 is a valid zero-length range at its very end
+
+template <typename T, typename FP, typename FS>
+static T chain_with_empty(FP fptr, FS fstr, const uint8_t* p, size_t cut, size_t n, int pos, int form, bool have_start, T start) {
+  static const string empty_string;
+  auto piece_empty = [&](bool first, T run) -> T {
+    const void* ep = form == E_NULL ? nullptr : (const void*)(g_one_byte_block + 1);
+    if (form == E_STRING) return first && !have_start ? PH(fstr(empty_string)) : PH(fstr(empty_string, run));
+    return first && !have_start ? PH(fptr(ep, 0)) : PH(fptr(ep, 0, run));
+  };
+  auto piece = [&](const uint8_t* d, size_t len, bool first, T run) -> T {
+    return first && !have_start ? PH(fptr(d, len)) : PH(fptr(d, len, run));
+  };
+  T run = start;
+  bool first = true;
+  if (pos == 0) { run = piece_empty(first, run); first = false; }
+  run = piece(p, cut, first, run);
+  first = false;
+  if (pos == 1) run = piece_empty(false, run);
+  run = piece(p + cut, n - cut, false, run);
+  if (pos == 2) run = piece_empty(false, run);
+  return run;
+}
+
+// Overload sets of the three seeded functions, spelled out so that default arguments are really used.
+struct Crc {
+  uint32_t operator()(const void* d, size_t n) const { return phosg::crc32(d, n); }
+  uint32_t operator()(const void* d, size_t n, uint32_t s) const { return phosg::crc32(d, n, s); }
+};
+struct CrcStr {  // no std::string overload exists: an "empty string" piece is passed as (data(), size())
+  uint32_t operator()(const string& s) const { return phosg::crc32(s.data(), s.size()); }
+  uint32_t operator()(const string& s, uint32_t r) const { return phosg::crc32(s.data(), s.size(), r); }
+};
+struct F32 {
+  uint32_t operator()(const void* d, size_t n) const { return phosg::fnv1a32(d, n); }
+  uint32_t operator()(const void* d, size_t n, uint32_t s) const { return phosg::fnv1a32(d, n, s); }
+};
+struct F32Str {
+  uint32_t operator()(const string& s) const { return phosg::fnv1a32(s); }
+  uint32_t operator()(const string& s, uint32_t r) const { return phosg::fnv1a32(s, r); }
+};
+struct F64 {
+  uint64_t operator()(const void* d, size_t n) const { return phosg::fnv1a64(d, n); }
+  uint64_t operator()(const void* d, size_t n, uint64_t s) const { return phosg::fnv1a64(d, n, s); }
+};
+struct F64Str {
+  uint64_t operator()(const string& s) const { return phosg::fnv1a64(s); }
+  uint64_t operator()(const string& s, uint64_t r) const { return phosg::fnv1a64(s, r); }
+};
+
+static void check_empty_pieces(const Case& k, const uint8_t* p, size_t cut) {
+  size_t n = k.len;
+  for (int seeded = 0; seeded < 2; seeded++) {
+    if (seeded && !(k.seeded_flags & 1)) continue;
+    bool fnv_ok = !seeded || (k.seeded_flags & 2);
+    uint32_t want_crc = seeded ? k.crc_s : k.crc, want32 = seeded ? k.fnv32_s : k.fnv32;
+    uint64_t want64 = seeded ? k.fnv64_s : k.fnv64;
+    const char* sd = seeded ? "running-value" : "default-start";
+    for (int pos = 0; pos < 3; pos++)
+      for (int form = 0; form < 3; form++) {
+        C->crumb_n("empty-piece", k.id, n, cut, (uint64_t)pos, (uint64_t)form, (uint64_t)seeded);
+        string tail = fmt("%s:%s:%s", EFORM[form], EPOS[pos], sd);
+        string what = fmt(" cut=%zu empty piece passed as %s at the %s of the chain, chain started from %s", cut, EFORM[form], EPOS[pos],
+            seeded ? fmt("running value %08x / %016" PRIx64, k.seed32, k.seed64).c_str() : "the default start value");
+        C->evaluations++;
+        uint32_t c = chain_with_empty<uint32_t>(Crc(), CrcStr(), p, cut, n, pos, form, seeded, k.seed32);
+        if (c != want_crc)
+          C->violation("crc32:chain:empty-piece:" + tail, "crc32 chained over pieces one of which is empty differs from zlib.crc32 of the concatenation",
+              describe(k) + what + fmt(" got=%08x expected=%08x", c, want_crc));
+        if (fnv_ok) {
+          C->evaluations += 2;
+          uint32_t f = chain_with_empty<uint32_t>(F32(), F32Str(), p, cut, n, pos, form, seeded, k.seed32);
+          if (f != want32)
+            C->violation("fnv1a32:chain:empty-piece:" + tail, "fnv1a32 chained over pieces one of which is empty differs from the recurrence over the concatenation",
+                describe(k) + what + fmt(" got=%08x expected=%08x", f, want32));
+          uint64_t g = chain_with_empty<uint64_t>(F64(), F64Str(), p, cut, n, pos, form, seeded, k.seed64);
+          if (g != want64)
+            C->violation("fnv1a64:chain:empty-piece:" + tail, "fnv1a64 chained over pieces one of which is empty differs from the recurrence over the concatenation",
+                describe(k) + what + fmt(" got=%016" PRIx64 " expected=%016" PRIx64, g, want64));
+        }
+        C->cls(fmt("chain:empty-piece:%s", tail.c_str()));
+      }
+  }
+}
+
+static void check_seeded_values(const Case& k, const uint8_t* p, const string& s) {
+  size_t n = k.len;
+  if (!(k.seeded_flags & 1)) return;
+  C->crumb_n("seeded", k.id, n, k.seed32, k.seed64);
+  C->evaluations++;
+  uint32_t c = PH(phosg::crc32(p, n, k.seed32));
+  if (c != k.crc_s)
+    C->violation("crc32:value:running-value", "crc32(x, running value) differs from zlib.crc32(x, running value)",
+        describe(k) + fmt(" running=%08x got=%08x expected=%08x", k.seed32, c, k.crc_s));
+  if (k.seeded_flags & 2) {
+    C->evaluations += 4;
+    uint32_t f1 = PH(phosg::fnv1a32(p, n, k.seed32)), f2 = PH(phosg::fnv1a32(s, k.seed32));
+    uint64_t g1 = PH(phosg::fnv1a64(p, n, k.seed64)), g2 = PH(phosg::fnv1a64(s, k.seed64));
+    if (f1 != k.fnv32_s) C->violation("fnv1a32:value:running-value", "fnv1a32(ptr,size,h) differs from the recurrence started at h", describe(k) + fmt(" h=%08x got=%08x expected=%08x", k.seed32, f1, k.fnv32_s));
+    if (f2 != k.fnv32_s) C->violation("fnv1a32:value:running-value:string-overload", "fnv1a32(string,h) differs from the recurrence started at h", describe(k) + fmt(" h=%08x got=%08x expected=%08x", k.seed32, f2, k.fnv32_s));
+    if (g1 != k.fnv64_s) C->violation("fnv1a64:value:running-value", "fnv1a64(ptr,size,h) differs from the recurrence started at h", describe(k) + fmt(" h=%016" PRIx64 " got=%016" PRIx64 " expected=%016" PRIx64, k.seed64, g1, k.fnv64_s));
+    if (g2 != k.fnv64_s) C->violation("fnv1a64:value:running-value:string-overload", "fnv1a64(string,h) differs from the recurrence started at h", describe(k) + fmt(" h=%016" PRIx64 " got=%016" PRIx64 " expected=%016" PRIx64, k.seed64, g2, k.fnv64_s));
+  }
+  C->cls(fmt("seeded:value:%s", k.seed32 == 0 ? "seed0" : k.seed32 == 0xFFFFFFFFu ? "seed-all-ones" : "seed-other"));
 }
 
 static void run_case(const Case& k) {
@@ -126,24 +261,41 @@ static void run_case(const Case& k) {
   string lc = n == 0 ? "empty" : n <= 300 ? "len<=300" : n < 65536 ? "len<64K" : "len>=64K";
   C->crumb_n("crc32", k.id, n, k.fill);
   C->evaluations += 2;
-  uint32_t c1 = phosg::crc32(p, n), c2 = phosg::crc32(p, n, 0);
+  uint32_t c1 = PH(phosg::crc32(p, n)), c2 = PH(phosg::crc32(p, n, 0));
   if (c1 != k.crc || c2 != k.crc)
     C->violation("crc32:value:" + lc, "crc32(x) differs from zlib.crc32(x)", describe(k) + fmt(" got=%08x/%08x expected=%08x", c1, c2, k.crc));
   C->crumb_n("fnv1a", k.id, n, k.fill);
   C->evaluations += 4;
-  uint32_t f1 = phosg::fnv1a32(p, n), f2 = phosg::fnv1a32(s);
+  uint32_t f1 = PH(phosg::fnv1a32(p, n)), f2 = PH(phosg::fnv1a32(s));
   if (f1 != k.fnv32) C->violation("fnv1a32:value:" + lc, "fnv1a32(ptr,size) differs from the FNV-1a recurrence", describe(k) + fmt(" got=%08x expected=%08x", f1, k.fnv32));
   if (f2 != k.fnv32) C->violation("fnv1a32:value:string-overload:" + lc, "fnv1a32(string) differs from the FNV-1a recurrence", describe(k) + fmt(" got=%08x expected=%08x", f2, k.fnv32));
-  uint64_t g1 = phosg::fnv1a64(p, n), g2 = phosg::fnv1a64(s);
+  uint64_t g1 = PH(phosg::fnv1a64(p, n)), g2 = PH(phosg::fnv1a64(s));
   if (g1 != k.fnv64) C->violation("fnv1a64:value:" + lc, "fnv1a64(ptr,size) differs from the FNV-1a recurrence", describe(k) + fmt(" got=%016" PRIx64 " expected=%016" PRIx64, g1, k.fnv64));
   if (g2 != k.fnv64) C->violation("fnv1a64:value:string-overload:" + lc, "fnv1a64(string) differs from the FNV-1a recurrence", describe(k) + fmt(" got=%016" PRIx64 " expected=%016" PRIx64, g2, k.fnv64));
+  check_seeded_values(k, p, s);
 
   if (k.allsplits) {
     for (size_t cut = 0; cut <= n; cut++) check_split(k, p, cut, "every-split");
     C->count("inputs_with_every_split_checked");
+    // empty pieces: every cut for one fill per length (rotating), three cuts for the others
+    if ((n & 3) == (k.fill & 3)) {
+      for (size_t cut = 0; cut <= n; cut++) check_empty_pieces(k, p, cut);
+      C->count("inputs_with_empty_pieces_at_every_split");
+    } else {
+      check_empty_pieces(k, p, 0);
+      if (n) check_empty_pieces(k, p, n);
+      if (n > 1) check_empty_pieces(k, p, n / 2);
+    }
   }
+  bool did_empty = false;
   for (uint32_t cut : k.splits)
-    if (cut <= n) check_split(k, p, cut, "sampled-split");
+    if (cut <= n) {
+      check_split(k, p, cut, "sampled-split");
+      if (!did_empty && cut > 0 && cut < n) {
+        check_empty_pieces(k, p, cut);
+        did_empty = true;
+      }
+    }
 
   size_t blocks = n / 64;
   C->cls(fmt("digest:mod64=%zu:%s", n % 64, blocks == 0 ? "0-full-blocks" : blocks == 1 ? "1-full-block" : blocks <= 4 ? "2-4-full-blocks" : "5+-full-blocks"));
@@ -155,9 +307,109 @@ static void run_case(const Case& k) {
     C->count("random_input_bytes", n);
   }
   if (C->samples.size() < 3 && (k.id % 997 == 0 || k.kind == 1))
-    C->sample(fmt("len=%u fill=%s: MD5/SHA1/SHA256 bin+hex (both overloads), crc32, fnv1a32/64 = hashlib/zlib/recurrence; %s", k.len,
+    C->sample(fmt("len=%u fill=%s: MD5/SHA1/SHA256 bin+hex (both overloads), crc32, fnv1a32/64 = hashlib/zlib/recurrence; %s; chains with empty pieces (nullptr / valid pointer / empty string)", k.len,
         FILLS[k.fill & 3], k.allsplits ? "chaining at every split point" : "chaining at sampled split points"));
   free(blk);
+}
+
+// ---- concurrency mode -------------------------------------------------------------------------------
+struct MtViolation {
+  string key, what, kase;
+};
+struct MtResult {
+  uint64_t evaluations = 0, mismatches = 0;
+  vector<MtViolation> v;
+  void bad(const string& key, const string& what, const string& kase) {
+    mismatches++;
+    if (v.size() < 20) v.push_back({key, what, kase});
+  }
+};
+
+static const unsigned NTHREADS = 8;
+
+static void mt_worker(unsigned t, const vector<Case>* cases, unsigned rounds, atomic<unsigned>* ready, atomic<bool>* go, MtResult* out) {
+  // own copies of this thread's inputs in exact-size heap blocks (threads share nothing but phosg itself)
+  struct Mine {
+    const Case* k;
+    uint8_t* blk;
+    string s;
+  };
+  vector<Mine> mine;
+  for (size_t i = t; i < cases->size(); i += NTHREADS) {
+    const Case& k = (*cases)[i];
+    uint8_t* blk = (uint8_t*)malloc(k.len ? k.len : 1);
+    if (k.len) memcpy(blk, k.data, k.len);
+    mine.push_back({&k, blk, string((const char*)k.data, k.len)});
+  }
+  ready->fetch_add(1);
+  while (!go->load(std::memory_order_acquire)) {
+  }
+  for (unsigned r = 0; r < rounds; r++) {
+    for (auto& m : mine) {
+      const Case& k = *m.k;
+      const uint8_t* p = m.blk;
+      size_t n = k.len;
+      auto where = [&]() { return describe(k) + fmt(" thread=%u round=%u (other threads were hashing their own inputs at the same time)", t, r); };
+      out->evaluations += 9;
+      {
+        PH_CTOR(phosg::MD5 h(p, n));
+        string b = PH(h.bin()), x = PH(h.hex());
+        if (b != string((const char*)k.md5, 16) || lower(x) != vf::hex(k.md5, 16))
+          out->bad("mt:md5:differs-from-single-threaded-expected", "MD5 of an unshared input differs from hashlib while other threads hash", where() + " bin=" + vf::hex(b) + " hex=" + x + " expected=" + vf::hex(k.md5, 16));
+      }
+      {
+        PH_CTOR(phosg::SHA1 h(m.s));
+        string b = PH(h.bin()), x = PH(h.hex());
+        if (b != string((const char*)k.sha1, 20) || lower(x) != vf::hex(k.sha1, 20))
+          out->bad("mt:sha1:differs-from-single-threaded-expected", "SHA1 of an unshared input differs from hashlib while other threads hash", where() + " bin=" + vf::hex(b) + " hex=" + x + " expected=" + vf::hex(k.sha1, 20));
+      }
+      {
+        PH_CTOR(phosg::SHA256 h(p, n));
+        string b = PH(h.bin()), x = PH(h.hex());
+        if (b != string((const char*)k.sha256, 32) || lower(x) != vf::hex(k.sha256, 32))
+          out->bad("mt:sha256:differs-from-single-threaded-expected", "SHA256 of an unshared input differs from hashlib while other threads hash", where() + " bin=" + vf::hex(b) + " hex=" + x + " expected=" + vf::hex(k.sha256, 32));
+      }
+      size_t cut = n ? (r * 7 + t) % (n + 1) : 0;
+      uint32_t c = PH(phosg::crc32(p + cut, n - cut, PH(phosg::crc32(p, cut))));
+      if (c != k.crc) out->bad("mt:crc32:differs-from-single-threaded-expected", "chained crc32 differs from zlib while other threads hash", where() + fmt(" cut=%zu got=%08x expected=%08x", cut, c, k.crc));
+      uint32_t f = PH(phosg::fnv1a32(m.s));
+      uint64_t g = PH(phosg::fnv1a64(p + cut, n - cut, PH(phosg::fnv1a64(p, cut))));
+      if (f != k.fnv32) out->bad("mt:fnv1a32:differs-from-single-threaded-expected", "fnv1a32 differs from the recurrence while other threads hash", where() + fmt(" got=%08x expected=%08x", f, k.fnv32));
+      if (g != k.fnv64) out->bad("mt:fnv1a64:differs-from-single-threaded-expected", "chained fnv1a64 differs from the recurrence while other threads hash", where() + fmt(" cut=%zu got=%016" PRIx64 " expected=%016" PRIx64, cut, g, k.fnv64));
+    }
+  }
+  for (auto& m : mine) free(m.blk);
+}
+
+static void run_mt(const vector<Case>& cases) {
+  bool tsan = C->arg("tsan") == "1";
+  unsigned rounds = tsan ? C->qt(10u, 60u) : C->qt(150u, 1000u);
+  C->crumb("mt mode: %u threads x %u rounds over %zu inputs (no per-case breadcrumb: threads share nothing with the harness)", NTHREADS, rounds, cases.size());
+  atomic<unsigned> ready{0};
+  atomic<bool> go{false};
+  vector<MtResult> res(NTHREADS);
+  vector<thread> th;
+  for (unsigned t = 0; t < NTHREADS; t++) th.emplace_back(mt_worker, t, &cases, rounds, &ready, &go, &res[t]);
+  while (ready.load() < NTHREADS) {
+  }
+  go.store(true, std::memory_order_release);
+  for (auto& t : th) t.join();
+  uint64_t iters = 0;
+  for (auto& r : res) {
+    C->evaluations += r.evaluations;
+    iters += r.evaluations / 9;
+    for (auto& v : r.v) C->violation(v.key, v.what, v.kase);
+    if (r.mismatches > r.v.size()) C->count("mt_mismatches_not_listed", r.mismatches - r.v.size());
+  }
+  C->count("mt_case_iterations", iters);
+  C->count("mt_threads", NTHREADS);
+  for (auto& k : cases) {
+    size_t n = k.len;
+    size_t r64 = n % 64;
+    bool edge = r64 <= 1 || (r64 >= 54 && r64 <= 57) || r64 >= 62;  // residues next to the padding / block boundaries
+    C->cls(fmt("concurrent:%uthreads:digests+crc+fnv:mod64=%s:%s", NTHREADS, edge ? fmt("%zu", r64).c_str() : "other", n < 64 ? "single" : n < 4096 ? "multi" : "large"));
+  }
+  C->sample(fmt("%u threads x %u rounds, each thread hashing its own %zu inputs (lengths 0..130, 183..193, 247..257, 311..321, random) with MD5/SHA1/SHA256/crc32/fnv1a32/fnv1a64; every result compared with hashlib/zlib/recurrence", NTHREADS, rounds, cases.size() / NTHREADS));
 }
 
 int main(int argc, char** argv) {
@@ -168,6 +420,8 @@ int main(int argc, char** argv) {
     fprintf(stderr, "[harness-error] --arg cases=<prefix> missing\n");
     return 3;
   }
+  bool mt = c.arg("mode") == "mt";
+  g_one_byte_block = (uint8_t*)malloc(1);
   string path = fmt("%s.%u.bin", base.c_str(), c.shard);
   FILE* f = fopen(path.c_str(), "rb");
   if (!f) {
@@ -192,6 +446,7 @@ int main(int argc, char** argv) {
       exit(3);
     }
   };
+  vector<Case> all;
   for (uint32_t i = 0; i < ncases; i++) {
     Case k;
     need(12);
@@ -202,7 +457,7 @@ int main(int argc, char** argv) {
     k.nsplits = buf[pos + 7];
     memcpy(&k.len, &buf[pos + 8], 4);
     pos += 12;
-    need((size_t)k.len + 16 + 20 + 32 + 16 + 4 * (size_t)k.nsplits);
+    need((size_t)k.len + 16 + 20 + 32 + 16 + 29 + 4 * (size_t)k.nsplits);
     k.data = &buf[pos];
     pos += k.len;
     k.md5 = &buf[pos];
@@ -215,15 +470,26 @@ int main(int argc, char** argv) {
     memcpy(&k.fnv32, &buf[pos + 4], 4);
     memcpy(&k.fnv64, &buf[pos + 8], 8);
     pos += 16;
+    k.seeded_flags = buf[pos];
+    memcpy(&k.seed32, &buf[pos + 1], 4);
+    memcpy(&k.seed64, &buf[pos + 5], 8);
+    memcpy(&k.crc_s, &buf[pos + 13], 4);
+    memcpy(&k.fnv32_s, &buf[pos + 17], 4);
+    memcpy(&k.fnv64_s, &buf[pos + 21], 8);
+    pos += 29;
     k.splits.resize(k.nsplits);
     if (k.nsplits) memcpy(k.splits.data(), &buf[pos], 4 * (size_t)k.nsplits);
     pos += 4 * (size_t)k.nsplits;
-    run_case(k);
+    if (mt)
+      all.push_back(k);
+    else
+      run_case(k);
     c.count("cases");
   }
   if (pos != buf.size()) {
     fprintf(stderr, "[harness-error] trailing bytes in case file %s\n", path.c_str());
     return 3;
   }
+  if (mt) run_mt(all);
   return c.finish();
 }
